@@ -301,9 +301,9 @@ var strFilters = []filt{
 		case 0:
 			return ""
 		case 1:
-			return ": " + fmt.Sprint(g.r.Range(1, 4)) + ", " + quote(pick(g.r, []string{"", "..", "~"}))
+			return ": " + fmt.Sprint(g.near(1, 4)) + ", " + quote(pick(g.r, []string{"", "..", "~"}))
 		}
-		return ": " + fmt.Sprint(g.r.Range(1, 4))
+		return ": " + fmt.Sprint(g.near(1, 4))
 	}},
 	{"date", func(g *Gen, sc scope) string {
 		if g.r.Chance(0.3) {
@@ -327,8 +327,8 @@ var numFilters = []filt{
 	{"plus", func(g *Gen, sc scope) string { return ": " + g.numAtom(sc) }},
 	{"minus", func(g *Gen, sc scope) string { return ": " + g.numAtom(sc) }},
 	{"times", func(g *Gen, sc scope) string { return ": " + g.numAtom(sc) }},
-	{"divided_by", func(g *Gen, sc scope) string { return ": " + fmt.Sprint(g.r.Range(1, 7)) }},
-	{"modulo", func(g *Gen, sc scope) string { return ": " + fmt.Sprint(g.r.Range(1, 7)) }},
+	{"divided_by", func(g *Gen, sc scope) string { return ": " + fmt.Sprint(g.near(1, 7)) }},
+	{"modulo", func(g *Gen, sc scope) string { return ": " + fmt.Sprint(g.near(1, 7)) }},
 }
 
 // array -> array filters
@@ -377,6 +377,10 @@ func (g *Gen) lenHint(atom string) int {
 // near returns a threshold argument: close to the input's length when that is
 // known (boundary values: thresholds just below, at and just above the length).
 func (g *Gen) near(lo, hi int) int {
+	if g.r.Chance(0.02) {
+		// far outside the usual range: limits of repeat counts, buffer sizes and integer widths
+		return pick(g.r, []int{255, 256, 999, 1000, 1001, 4096, 65536, 1 << 31, -1 << 31})
+	}
 	if g.hint >= 0 && g.r.Chance(0.6) {
 		n := g.hint + g.r.Range(-3, 3)
 		if n < 0 {
@@ -722,10 +726,10 @@ func (g *Gen) node(sc *scope, depth int) *TNode {
 				args += " reversed"
 			}
 			if g.r.Chance(0.25) {
-				args += " limit: " + fmt.Sprint(g.r.Range(0, 4))
+				args += " limit: " + fmt.Sprint(g.near(0, 4))
 			}
 			if g.r.Chance(0.25) {
-				args += " offset: " + fmt.Sprint(g.r.Range(0, 3))
+				args += " offset: " + fmt.Sprint(g.near(0, 3))
 			}
 			if name == "tablerow" && g.r.Chance(0.6) {
 				args += " cols: " + fmt.Sprint(g.r.Range(1, 3))
